@@ -7,6 +7,7 @@
 
 mod common;
 mod c01;
+mod c02;
 mod c03;
 mod c04;
 mod c05;
@@ -40,6 +41,7 @@ fn main() {
     std::panic::set_hook(Box::new(|_| {}));
     let rule = match args[1].as_str() {
         "C01" => c01::run_c01(&mut out, &mut rng, tier),
+        "C02" => c02::run_c02(&mut out, &mut rng, tier),
         "C03" => c03::run_c03(&mut out, &mut rng, tier),
         "C04" => c04::run_c04(&mut out, &mut rng, tier),
         "C09" => c09::run_c09(&mut out, &mut rng, tier),
